@@ -283,3 +283,53 @@ ARRAY_MODEL = {
     "method:Index.min": index_min, "method:Index.max": index_max, "method:Index.get_slice_bound": index_slice_bound,
     "slice": h_slice,
 }
+
+
+# ----------------------------------------------------------------------------- small dense matrices (concrete shape)
+class Matrix2:
+    """meta of an Opq('Matrix'): concrete shape, entries[(i, j)] -> Num"""
+
+
+def np_zeros_nd(ex, p, args, kw, node):
+    shape = args[0] if args else kw["shape"]
+    if not (isinstance(shape, Tup) and len(shape.items) == 2):
+        raise Unsupported("zeros with a shape that is not a pair")
+    dims = [z3.simplify(d.t) for d in shape.items]
+    if not all(z3.is_int_value(d) for d in dims):
+        raise Unsupported("matrix with symbolic shape (bounded check: concrete sizes only)")
+    n, m = dims[0].as_long(), dims[1].as_long()
+    ex.trace["assumed"].add("numpy.zeros((n, m)): an n x m matrix of zeros; item assignment writes exactly the addressed cell")
+    return [(p, Opq("Matrix", z3.Const(fresh_name("mat"), opaque_sort("Matrix")), dict(n=n, m=m, cells={(i, j): Num(0.0) for i in range(n) for j in range(m)})))]
+
+
+def matrix_setitem(ex, p, args, kw, node):
+    mat, idx, val = args
+    i, j = [z3.simplify(x.t) for x in idx.items]
+    if not (z3.is_int_value(i) and z3.is_int_value(j)):
+        raise Unsupported("matrix store at a symbolic index")
+    cells = dict(mat.meta["cells"])
+    p, v = ex.as_num(val, p, node)
+    cells[(i.as_long(), j.as_long())] = Num(v.real())
+    return [(p, Opq("Matrix", z3.Const(fresh_name("mat"), opaque_sort("Matrix")), dict(n=mat.meta["n"], m=mat.meta["m"], cells=cells)))]
+
+
+def matrix_getitem(ex, p, args, kw, node):
+    mat, idx = args
+    n, m, cells = mat.meta["n"], mat.meta["m"], mat.meta["cells"]
+    p, i = ex.as_num(idx.items[0], p, node)
+    p, j = ex.as_num(idx.items[1], p, node)
+    p = ex.implicit(p, z3.Not(z3.And(i.t >= 0, i.t < n, j.t >= 0, j.t < m)), "IndexError", node)
+    if not cells:
+        from .symex import DeadPath
+        raise DeadPath()
+    res = None
+    for (a, b), v in cells.items():
+        res = v if res is None else ite(z3.And(i.t == a, j.t == b), v, res)
+    return [(p, res)]
+
+
+def matrix_shape(ex, p, args, kw, node):
+    return [(p, Tup([Num(args[0].meta["n"]), Num(args[0].meta["m"])]))]
+
+
+MATRIX_MODEL = {"numpy.zeros#nd": np_zeros_nd, "setitem:Matrix": matrix_setitem, "getitem:Matrix": matrix_getitem, "attr:Matrix.shape": matrix_shape}
